@@ -26,6 +26,8 @@ class Rec(NodeBase):
     # an untyped attribute holding a list: no copy metadata of its own (copied in the
     # mode that the caller of clone_traits asks for)
     blob = Any()
+    # explicitly marked as NOT transient
+    keep = Int(transient=False)
     total = Property(Int, observe="children.items.value")
     # a settable property: its value lives under another name in the dictionary
     sp = Property(Int)
